@@ -333,3 +333,8 @@ BUNDLE = "dulwich/bundle.py"
 b("C04-b12", "C04", BUNDLE, "        self.pack_data.check()\n", "", "R04.4")
 b("C04-b13", "C04", BUNDLE, "        objects = list(PackInflater.for_pack_data(self.pack_data))\n        for git_obj in objects:\n", "        for git_obj in PackInflater.for_pack_data(self.pack_data):\n", "R04.4")
 n("C04-n9", "C04", BUNDLE, "        objects = list(PackInflater.for_pack_data(self.pack_data))\n        for git_obj in objects:\n", "        resolved = tuple(PackInflater.for_pack_data(self.pack_data))\n        for git_obj in resolved:\n")
+b("C10-b12", "C10", GC_PY, "    if prune and not dry_run and grace_period is not None:\n        for sha in list(unreachable_to_prune):\n            try:\n                if time.time() - object_store.get_object_mtime(sha) < grace_period:\n                    unreachable_to_prune.discard(sha)\n            except KeyError:\n                unreachable_to_prune.discard(sha)\n", "", "R10.14")
+b("C10-b13", "C10", GC_PY, "    if prune and not dry_run and grace_period is not None:\n        for sha in list(unreachable_to_prune):\n            try:\n                if time.time() - object_store.get_object_mtime(sha) < grace_period:",
+  "    if prune and not dry_run and grace_period is None:\n        for sha in list(unreachable_to_prune):\n            try:\n                if time.time() - object_store.get_object_mtime(sha) < 0:", "R10.14")
+n("C10-n9", "C10", GC_PY, "    if prune and not dry_run and grace_period is not None:\n        for sha in list(unreachable_to_prune):\n            try:\n                if time.time() - object_store.get_object_mtime(sha) < grace_period:\n                    unreachable_to_prune.discard(sha)\n            except KeyError:\n                unreachable_to_prune.discard(sha)\n\n    # Delete loose unreachable objects\n    if prune and not dry_run:\n        for sha in unreachable_to_prune:\n            if object_store.contains_loose(sha):\n",
+  "    # Delete loose unreachable objects\n    if prune and not dry_run:\n        for sha in list(unreachable_to_prune):\n            if grace_period is not None:\n                try:\n                    if time.time() - object_store.get_object_mtime(sha) < grace_period:\n                        unreachable_to_prune.discard(sha)\n                        continue\n                except KeyError:\n                    unreachable_to_prune.discard(sha)\n                    continue\n            if object_store.contains_loose(sha):\n")
